@@ -11,6 +11,7 @@ validate: spec/Trace_Relations.tla: RelabelInvariant, PDSymmetric, VInIn01, VIZe
           MIOneIffSame, Ci2lsLs2ciInverseUpToRenaming.
 """
 import random
+import re
 
 import numpy as np
 
@@ -88,6 +89,16 @@ def _call(fn, W, cs, var=None, opt=None):
     raise core.MachineryError("no runner for " + fn)
 
 
+def _readback(p, scale):
+    """a returned partition is read back in the record's label units (see `labels`) when it is
+    expressed in the caller's labels (modularity_und/_dir return kci itself), and as it is when
+    it is not (modularity_und_sign returns ranks 1..k): either map is injective on the vector, and
+    the spec reads a partition-valued output only up to renaming (SamePartition)"""
+    p = np.asarray(p, dtype=float)
+    v = p / scale
+    return encode.vec_int(v if np.all(v == np.round(v)) else p)
+
+
 def _one(fn, mkW, cs, kind, var=None, opt=None):
     holder = {}
 
@@ -95,11 +106,26 @@ def _one(fn, mkW, cs, kind, var=None, opt=None):
 
     def thunk():
         out, pouts = _call(fn, mkW(), cs, var, opt)
-        # a returned partition is read back in the record's label units (see `labels`)
-        holder["p"] = [encode.vec_int(np.asarray(p, dtype=float) / scale) for p in pouts]
+        holder["p"] = [_readback(p, scale) for p in pouts]
         return out
     out, _shape, raised = rc.call2(thunk, kind)
     return out, holder.get("p", []), raised
+
+
+def _sparse(W):
+    """a large network travels in the job as its non-zero entries"""
+    W = np.asarray(W)
+    i, j = np.nonzero(W)
+    return dict(n=len(W), ijw=[[int(a), int(b), encode.e_int(W[a, b])] for a, b in zip(i, j)])
+
+
+def _dense(W):
+    if not isinstance(W, dict):
+        return np.array(W, dtype=float)
+    A = np.zeros((W["n"], W["n"]))
+    for i, j, w in W["ijw"]:
+        A[i, j] = w
+    return A
 
 
 def _ls1(ls):
@@ -117,7 +143,7 @@ def exec_job(job):
     if rel == "relabel":
         fn = job["fn"]
         kind = "int" if fn in INT_FNS else "real"
-        W0 = np.array(job["W"], dtype=float) if job.get("W") is not None else None
+        W0 = _dense(job["W"]) if job.get("W") is not None else None
         # the network as another argument dtype / memory layout (a fresh array per call)
         mkW = (lambda: None) if W0 is None else \
             (lambda: rc.as_variant(W0, job.get("dtype", "float64"), job.get("layout", "C")))
@@ -353,6 +379,201 @@ def build_jobs(ctx):
     return jobs
 
 
+# ------------------------------------------------------------------- scale regime
+# The exhaustive / random parts above never leave n <= 10 and k <= 10 communities.  Narrow
+# integer or float types for label ranks, community counters or label values (int8, uint8, int16,
+# float32, int32 ...) and label arithmetic in place of equality tests only show beyond that: this
+# family visits 130..320 nodes, 2 / ~n/2 / n / 127..129 / 255..257 communities, and label values
+# around every type boundary, renamed by order-reversing, affine and arbitrary injective maps.
+SCALE_LIMIT = 240.0                 # seconds per job (two calls; gateway_coef_sign is O(k n^2))
+LABEL_MAX = 999999999               # |record label| < 10^9 (encode.e_int; TLC integers are 32-bit)
+TYPE_EDGES = (2 ** 7, 2 ** 8, 2 ** 15, 2 ** 16, 2 ** 24)      # int8 uint8 int16 uint16 float32
+
+
+def scale_network(rng, n, typ, support):
+    """W on n nodes, integer weights 1..3 (random signs for 'sign'): sparse G(n,p) of mean
+    degree 5..12 (many neighbours in many different communities) or a ring of n/2 two-cliques
+    with random chords"""
+    und = typ != "dir"
+    if support == "gnp":
+        p = rng.choice([5.0, 8.0, 12.0]) / n
+        return inputs.rand_graph(rng, n, p, und=und, wmax=3, signed=(typ == "sign"))
+    edges = rc.s_clique_ring(n // 2, 2) + [tuple(sorted(rng.sample(range(n), 2))) for _ in range(n)]
+    edges = sorted(set(e for e in edges if e[0] != e[1]))
+    if not und:
+        edges = rc.orient(rng, edges)
+    w = [rng.randint(1, 3) * (rng.choice([1, -1]) if typ == "sign" else 1) for _ in edges]
+    return inputs.mat_from_edges(n, edges, und=und, w=w)
+
+
+def scale_shapes(n):
+    ks = [k for k in (127, 128, 129, 255, 256, 257) if k <= n]
+    return ["two", "pairs", "singletons", "near-singletons", "consecutive-pairs"] + ["k=%d" % k for k in ks]
+
+
+def scale_partition(rng, n, shape):
+    """block index (0-based, arbitrary) per node"""
+    nodes = list(range(n))
+    rng.shuffle(nodes)
+    b = [0] * n
+    if shape == "two":
+        m = rng.randint(1, n - 1)
+        for v in nodes[:m]:
+            b[v] = 1
+    elif shape == "pairs":                           # ~n/2 communities: a random matching
+        for k, v in enumerate(nodes):
+            b[v] = k // 2
+    elif shape == "consecutive-pairs":               # the two-cliques of the ring
+        b = [i // 2 for i in range(n)]
+    elif shape == "singletons":
+        b = list(range(n))
+    elif shape == "near-singletons":                 # n-d communities: d nodes join another node
+        d = rng.randint(3, 15)
+        for k, v in enumerate(nodes):
+            b[v] = k if k < n - d else rng.randrange(n - d)
+    else:                                            # exactly k communities, every one used
+        k = int(shape[2:])
+        for i, v in enumerate(nodes):
+            b[v] = i if i < k else rng.randrange(k)
+    return b
+
+
+SCALE_STYLES = ("natural", "zero-based", "reversed", "affine+", "affine-", "negative", "gapped", "large",
+                "type-edge", "type-edge-desc")
+
+
+def scale_labels(rng, k, style):
+    """k distinct integer labels (|l| <= LABEL_MAX); label[r] is given to block r, blocks being numbered
+    at random - except for 'natural'/'reversed'/'affine*', which are monotone in the block number so
+    that natural -> reversed is THE order-reversing map and natural -> affine+ an increasing one"""
+    if style == "natural":
+        return list(range(1, k + 1))
+    if style == "zero-based":
+        new = list(range(k))
+    elif style == "reversed":
+        return list(range(k, 0, -1))
+    elif style == "affine+":
+        a, c = rng.choice([2, 3, 7, 1000]), rng.choice([-5000, 0, 1, 10 ** 6])
+        return [a * x + c for x in range(1, k + 1)]
+    elif style == "affine-":
+        a, c = rng.choice([-1, -3, -11]), rng.choice([0, -7, 10 ** 6])
+        return [a * x + c for x in range(1, k + 1)]
+    elif style == "negative":
+        new = rng.sample(range(-10 ** 6, 0), k)
+    elif style == "gapped":
+        new = rng.sample(range(-10 ** 5, 10 ** 5), k)
+    elif style == "large":
+        new = rng.sample(range(LABEL_MAX - 10 ** 6, LABEL_MAX + 1), k)
+    else:                                            # consecutive labels straddling a type boundary
+        e = rng.choice(TYPE_EDGES) * rng.choice([1, 1, -1])
+        lo = e - rng.randint(1, k - 1)
+        new = list(range(lo, lo + k))
+        if style == "type-edge-desc":
+            return new[::-1]
+    rng.shuffle(new)
+    return new
+
+
+def scale_civar(rng, cs):
+    """(dtype, scale, layout) as in `labels`; additionally scale 4096: the code sees 4096 x the
+    record's labels (an injective renaming of them; up to 4.1e12, beyond int32, exact in float64)"""
+    m = max(abs(x) for c in cs for x in c)
+    if m > LABEL_MAX:
+        raise core.MachineryError("scale family: label %d does not fit the record encoding" % m)
+    r = rng.random()
+    if r < 0.4:
+        return ["int64", 1, "C"]
+    if r < 0.55:
+        return ["int64", 4096, rng.choice(["C", "stride"])]
+    dt = rng.choice(["int64", "int32", "float64", "float64"])
+    return [dt, rng.choice([1, 0.5, 4096]) if dt == "float64" else 1, rng.choice(["C", "stride"])]
+
+
+def scale_jobs(ctx):
+    rng = random.Random(1000003 * ctx.seed + 14)
+    fns = sorted(FNS)
+    jobs = []
+    if ctx.quick:
+        plan = [(rng.randint(130, 180), "gnp"), (rng.randint(257, 320), rng.choice(["gnp", "pair-ring"]))]
+    else:
+        plan = [(rng.randint(130, 160), "gnp"), (rng.randint(130, 256), "pair-ring"),
+                (rng.randint(161, 256), "gnp"), (rng.randint(257, 290), "gnp"),
+                (rng.randint(257, 320), "pair-ring"), (rng.randint(291, 320), "gnp")]
+    for n, support in plan:
+        nets = {typ: _sparse(scale_network(rng, n, typ, support)) for typ in ("und", "dir", "sign")}
+        parts = []
+        for shape in scale_shapes(n):
+            b = scale_partition(rng, n, shape)
+            perm = sorted(set(b))                    # blocks numbered 0..k-1 at random
+            rng.shuffle(perm)
+            dense = {x: i for i, x in enumerate(perm)}
+            parts.append((shape, [dense[x] for x in b], len(perm)))
+        top = 256 if n >= 256 else 128               # the largest regime of community counts this n allows
+        top_parts = [q for q in parts if q[2] >= top]
+
+        def labelling(part, style):
+            lab = scale_labels(rng, part[2], style)
+            return [lab[x] for x in part[1]]
+
+        def src_of(part):
+            return "scale-%s-n%d-%s" % (support, n, part[0])
+
+        def one(fn, part, s1, s2):
+            c1, c2 = labelling(part, s1), labelling(part, s2)
+            j = relabel_job(rng, fn, src_of(part), nets[FNS[fn]], [c1], [c2], p_plain=0.3)
+            j["civar1"], j["civar2"] = scale_civar(rng, [c1]), scale_civar(rng, [c2])
+            j["styles"] = [s1, s2]
+            jobs.append(j)
+
+        def drawn_pair():
+            return rng.choice([("natural", "affine+"), ("natural", "affine-"),
+                               (rng.choice(SCALE_STYLES), rng.choice(SCALE_STYLES)),
+                               (rng.choice(SCALE_STYLES), rng.choice(SCALE_STYLES))])
+        for fn in fns:
+            if ctx.quick:
+                # per routine and network: the order-reversing renaming of a partition from the top
+                # regime, and a drawn renaming of a drawn partition
+                one(fn, rng.choice(top_parts), "natural", "reversed")
+                one(fn, rng.choice(parts), *drawn_pair())
+                continue
+            heavy = fn.startswith("gateway_coef_sign")          # O(k n^2) python loop per call
+            for part in parts:
+                todo = [("natural", "reversed"), ("natural", rng.choice(["affine+", "affine-"]))] + \
+                       [drawn_pair() for _ in range(3)]
+                for s1, s2 in (rng.sample(todo, 2) if heavy else todo):
+                    one(fn, part, s1, s2)
+        for part in parts:
+            # partition_distance: a partition against its renaming, against a one-node move of
+            # it, against another shape; ci2ls / ls2ci; agreement (n x n output: smaller n only)
+            src = src_of(part)
+            c1, c2 = labelling(part, "natural"), labelling(part, rng.choice(SCALE_STYLES[2:]))
+            moved = list(c2)
+            v, u = rng.sample(range(n), 2)
+            fresh = max(moved) + 1 if max(moved) < LABEL_MAX else min(moved) - 1
+            moved[v] = moved[u] if moved[v] != moved[u] else fresh
+            other = scale_partition(rng, n, rng.choice(scale_shapes(n)))
+            other = [x + 1 for x in other]
+            for cx, cy in ((c1, c2), (c1, moved), (c2, other), (c2, c2)):
+                jobs.append(dict(rel="pdist", fn="partition_distance", src=src, cx=cx, cy=cy,
+                                 civar1=scale_civar(rng, [cx]), civar2=scale_civar(rng, [cy])))
+            o2 = labelling(part, rng.choice(SCALE_STYLES))
+            j = relabel_job(rng, "partition_distance", src, None, [c1, other], [c2, other], p_plain=0.3)
+            j["civar1"], j["civar2"] = scale_civar(rng, [c1, other]), scale_civar(rng, [c2, other])
+            jobs.append(j)
+            ls = blocks(c1)
+            rng.shuffle(ls)
+            for m in ls:
+                rng.shuffle(m)
+            jobs.append(dict(rel="ci2ls", fn="ci2ls~ls2ci", src=src, ci=c2, ci2=o2, lsin=ls,
+                             civar1=[rng.choice(["int64", "int32"]), 1, "C"]))
+            if n <= 180 and (not ctx.quick or part[2] >= 127):
+                for fn in INT_FNS:
+                    j = relabel_job(rng, fn, src, None, [c1, other, c1], [c2, other, o2], p_plain=0.3)
+                    j["civar1"], j["civar2"] = scale_civar(rng, [c1, other]), scale_civar(rng, [c2, other, o2])
+                    jobs.append(j)
+    return jobs
+
+
 def describe(job, rec, clause):
     v = {k: job[k] for k in ("dtype", "layout", "civar1", "civar2", "opt") if job.get(k)}
     return rc.describe(job, rec, clause) + (" variants=%s" % v if v else "")
@@ -367,6 +588,17 @@ def run(ctx):
     jobs = build_jobs(ctx)
     recs = pool.run_jobs(__name__, jobs)
     verdicts = ctx.validate(*rc.TRACE, recs, tag="c14", chunk=6000)
+    # scale regime: few, large records; judged by the same clauses (they only relate the two
+    # outcomes and re-check that the labellings are renamings of each other)
+    sjobs = scale_jobs(ctx)
+    srecs = pool.run_jobs(__name__, sjobs, limit=SCALE_LIMIT)
+    sverdicts = ctx.validate(*rc.TRACE, srecs, tag="c14scale", chunk=800)
+    ctx.extra["scale_regime"] = dict(
+        jobs=len(sjobs), timeouts=sum(1 for r in srecs if r.get("timeout")),
+        sources=sorted(set(j["src"] for j in sjobs)),
+        networks=sorted(set(re.match(r"scale-(.*-n\d+)-", j["src"]).group(1) for j in sjobs)),
+        communities=sorted(set(len(set(c)) for j in sjobs if j["rel"] == "relabel" for c in j["cs1"])))
+    jobs, recs, verdicts = jobs + sjobs, recs + srecs, verdicts + sverdicts
     bad = [(j["fn"], v[0]) for j, v in zip(jobs, verdicts) if v[0] in BAD_SKIPS]
     if bad:
         raise core.MachineryError("harness produced records outside the spec's domain: %s" % bad[:5])
@@ -396,9 +628,15 @@ def run(ctx):
                 "shapes incl. one block / all singletons / equal blocks; networks also as int64/int32 arrays and in "
                 "other memory layouts, label vectors as int64/int32/float64 (also fractional, strided; drawn "
                 "independently for the two labellings), gamma in {1/2,1,2} for modularity_*, all drawn from the "
-                "seeded RNG; non-trivial = distinct judged "
+                "seeded RNG; scale regime: %d seeded networks with 130..320 nodes (sparse G(n,p), rings of two-cliques "
+                "with chords) x partitions with 2 / ~n/2 / n-d / n / 127,128,129 / 255,256,257 communities x every "
+                "function variant, labellings natural -> order-reversed, -> affine (increasing and decreasing) and "
+                "drawn pairs of zero-based/negative/gapped/large(~10^9)/straddling 2^7,2^8,2^15,2^16,2^24 label "
+                "sets, also handed over x4096 (beyond int32); partition_distance of a partition with its renaming, "
+                "with a one-node move, with another shape; non-trivial = distinct judged "
                 "case with >= 2 modules and a renaming that changes the vector"
-                % (nmax, "a drawn third" if ctx.quick else "all", len(FNS) + 3))
+                % (nmax, "a drawn third" if ctx.quick else "all", len(FNS) + 3,
+                   len(ctx.extra["scale_regime"]["networks"])))
     k = next(i for i, j in enumerate(jobs) if j["src"] == "random" and j["rel"] == "relabel")
     ctx.add_sample("model-input", dict(job=jobs[100], record=recs[100], verdict=verdicts[100]))
     ctx.add_sample("random-input", dict(job=jobs[k], record=recs[k], verdict=verdicts[k]))
@@ -408,6 +646,10 @@ def run(ctx):
         "integer weights 1..3 (signed for the _sign functions); gamma in {1/2, 1, 2} for modularity_und/_dir",
         "fractional labels are handed to the code as half the integer labels of the record (an injective renaming "
         "of them, so the record's labellings are relabellings of what the code saw)",
+        "labels scaled up are handed to the code as 4096 x the integer labels of the record (again an injective "
+        "renaming; record labels stay below 10^9 in magnitude because TLC integers are 32-bit)",
+        "scale-regime records (n up to 320) are judged by the same clauses: they relate the two outcomes of one "
+        "pair of calls and re-check co-membership of the two labellings, no expected value is computed",
         "a function that raises the same exception for both labellings is skipped (no result to compare)",
     ]
     return ctx.finish()
@@ -415,7 +657,7 @@ def run(ctx):
 
 def replay(ctx, rp):
     job = rp["job"]
-    recs = pool.run_jobs(__name__, [job])
+    recs = pool.run_jobs(__name__, [job], limit=SCALE_LIMIT if str(job.get("src", "")).startswith("scale") else 20.0)
     verdicts = ctx.validate(*rc.TRACE, recs, tag="c14")
     core.log("replay verdict:", verdicts[0])
     core.log("  " + rc.describe(job, recs[0], verdicts[0][0]))
